@@ -34,7 +34,7 @@ import logging
 import random
 from typing import Any
 
-from hv.gen import family
+from hv.gen import argnames, family
 from hv.gen.judge import scope_token, state_verdicts
 from hv.gen.programs import Env, World, run_block, take_probe
 from hv.loop import run_virtual
@@ -386,6 +386,8 @@ def cases(tier: str, rng: random.Random):  # noqa: ANN201
 
 
 def run(R: Recorder, tier: str, seed: int, shard: int, nshards: int) -> None:
+    if shard == 0:
+        argnames.check_ctx_entry_points(R, "items", "stream")
     R.flags["exhaustive_core"] = "4 places x 0-3 items x end/raise x full/break@k/aclose@k x nested-yield positions"
     rng = random.Random(f"C11/{seed}")
     for i, case in enumerate(cases(tier, rng)):
@@ -394,4 +396,7 @@ def run(R: Recorder, tier: str, seed: int, shard: int, nshards: int) -> None:
 
 
 def replay(R: Recorder, case: dict[str, Any]) -> None:
+    if "ctx_entry" in case:
+        argnames.check_ctx_entry_points(R, "items", "stream")
+        return
     run_case(R, case, verbose=True)
